@@ -290,6 +290,11 @@ def handle (j : Json) : P Json := do
               for o in (← list str (fieldD ij "dataOuts" (.arr #[]))) do
                 outs := outs ++ [((AL.get? wOut o).getD o, ty)]
             | .error _ => pure ()
+        -- a mapping node: every output is a list of per-item results, every MAPPED input receives the list of items
+        let mo ← list str (fieldD nj "mapOver" (.arr #[]))
+        if !mo.isEmpty then
+          outs := outs.map fun (o, t) => (o, TypeCompat.Ty.gen "list" [t])
+          ins := ins.map fun (q, t) => if mo.contains q then (q, TypeCompat.Ty.gen "list" [t]) else (q, t)
         inT := inT ++ [(nm, ins)]
         outT := outT ++ [(nm, outs)]
       match nj.getObjVal? "ann" with
